@@ -235,7 +235,19 @@ impl Envelope {
     pub fn uncompress_subject(&self) -> Result<Self> {
         if self.subject().is_compressed() {
             let subject = self.subject().uncompress()?;
-            Ok(self.replace_subject(subject))
+            match self.case() {
+                // Keep the uncompressed subject as the subject even when it
+                // is itself a node (`replace_subject` would merge its
+                // assertions into this envelope and change the digest).
+                EnvelopeCase::Node { assertions, digest, .. } => {
+                    let result = Self::new_with_unchecked_assertions(subject, assertions.clone());
+                    if result.digest().as_ref() != digest {
+                        bail!(EnvelopeError::InvalidDigest);
+                    }
+                    Ok(result)
+                }
+                _ => Ok(subject),
+            }
         } else {
             Ok(self.clone())
         }
